@@ -240,4 +240,3 @@ func writeExpr(b *strings.Builder, e Expr) {
 		b.WriteString(")")
 	}
 }
-
